@@ -100,7 +100,7 @@ class Check:
             hit[0] += 1
             return False
         self.n_violations += 1
-        if len(self.violations) < 25:
+        if len(self.violations) < 12:
             self.violations.append({'property': self.prop, 'what': what, 'case': case})
         return True
 
